@@ -516,7 +516,7 @@ def oracle(plan, obs):
         add("artists-not-readable", f"the figure does not have the expected artists: {obs['read_error']}")
         return bad
     if not obs.get("pure", False):
-        add("dataset-modified", "the dataset passed in is not identical to its deep copy after plotting")
+        add("dataset-modified", "the dataset (or array) passed in is not identical to its deep copy after plotting")
     grid = bool(plan.row or plan.col)
     want = list(plan.panels())
     if len(obs["panels"]) != len(want):
@@ -817,7 +817,7 @@ def run(tier, seed):
         c.cov["coqchk"] = {"cmd": "coqchk -silent -o -R . XV XV.Props.C17", "ok": rc == 0, "summary": tail}
         if rc != 0:
             c.obligation_broken("coqchk of Props/C17.vo", out[-800:])
-    n = 1200 if tier == "quick" else 10000
+    n = 1200 if tier == "quick" else 9000
     if c.broken and tier == "quick":
         n *= 2
     canon_names, preamble = canon_preamble()
